@@ -46,6 +46,11 @@ fn play(src: &str, ops: &[String]) -> serde_json::Value {
         if let Some(var) = op.strip_prefix("o:") {
             if let Err(e) = story.observe_variable(var, Rc::new(RefCell::new(Obs { log: notes.clone() }))) { result = format!("err:{e}"); }
             notes.borrow_mut().push("|".into());
+        } else if let Some(var) = op.strip_prefix("ro:") {
+            // remove an observer that was never registered
+            let stranger: Rc<RefCell<dyn bladeink::story::variable_observer::VariableObserver>> = Rc::new(RefCell::new(Obs { log: notes.clone() }));
+            let name = if var.is_empty() { None } else { Some(var) };
+            if let Err(e) = story.remove_variable_observer(&stranger, name) { result = format!("err:{e}"); }
         } else if let Some(n) = op.strip_prefix("rf:") {
             if let Err(e) = story.remove_flow(n) { result = format!("err:{e}"); }
         } else if let Some(n) = op.strip_prefix("sf:") {
